@@ -110,17 +110,19 @@ def main():
         f.write("#define ENUM_ROWS " + ", ".join('{"%s", (long) %s}' % (n, n) for n in names) + "\n")
     srcs = sorted(os.path.join(repo, "src", x) for x in os.listdir(os.path.join(repo, "src")) if x.endswith(".c"))
     srcs += sorted(os.path.join(repo, "partial/idn2", x) for x in os.listdir(os.path.join(repo, "partial/idn2")) if x.endswith(".c"))
-    exe = os.path.join(work, "dump")
-    cmd = ["gcc", "-O0", "-w", "-std=gnu99", "-D_DEFAULT_SOURCE", "-D_XOPEN_SOURCE=700", "-DHAVE_LIBIDN2",
-           "-I" + os.path.join(repo, "include"), "-I" + repo, "-I" + work,
-           os.path.join(VERIF, "harness/dump.c")] + srcs + ["-lidn2", "-o", exe]
-    p = subprocess.run(cmd, stdout=subprocess.PIPE, stderr=subprocess.STDOUT)
-    if p.returncode != 0:
-        raise TieError("dump.c does not compile against the tree:\n" + p.stdout.decode()[-2000:])
-    p = subprocess.run([exe], stdout=subprocess.PIPE, stderr=subprocess.PIPE)
-    if p.returncode != 0:
-        raise TieError("dump failed: rc=%d %s" % (p.returncode, p.stderr.decode()[-500:]))
-    dump = json.loads(p.stdout.decode())
+    def run_dump(defines=()):
+        exe = os.path.join(work, "dump" + "".join("_" + d for d in defines))
+        cmd = ["gcc", "-O0", "-w", "-std=gnu99", "-D_DEFAULT_SOURCE", "-D_XOPEN_SOURCE=700", "-DHAVE_LIBIDN2"] + ["-D" + d for d in defines] + \
+              ["-I" + os.path.join(repo, "include"), "-I" + repo, "-I" + work,
+               os.path.join(VERIF, "harness/dump.c")] + srcs + ["-lidn2", "-o", exe]
+        p = subprocess.run(cmd, stdout=subprocess.PIPE, stderr=subprocess.STDOUT)
+        if p.returncode != 0:
+            raise TieError("dump.c does not compile against the tree:\n" + p.stdout.decode()[-2000:])
+        p = subprocess.run([exe], stdout=subprocess.PIPE, stderr=subprocess.PIPE)
+        if p.returncode != 0:
+            raise TieError("dump failed: rc=%d %s" % (p.returncode, p.stderr.decode()[-500:]))
+        return json.loads(p.stdout.decode())
+    dump = run_dump()
 
     L = []
     L.append("/-! GENERATED by tools/extract.py from the repository working tree — do not edit. -/")
@@ -143,11 +145,11 @@ def main():
     # errors[]: runtime strings + source tags
     src_eav = rd("src/eav.c")
     m = re.search(r"errors\s*\[\s*EEAV_MAX\s*\]\s*=\s*\{(.*?)\};", src_eav, flags=re.S)
-    if not m:
-        raise TieError("errors[] initialiser not found in src/eav.c")
-    tags = re.findall(r'"((?:[^"\\]|\\.)*)"\s*/\*\s*(EEAV_\w+)\s*\*/', m.group(1))
+    # every string of the initialiser, with its /* EEAV_x */ tag when it carries one ("" otherwise: the tag is documentation)
+    tags = [(a, b) for a, b in re.findall(r'"((?:[^"\\]|\\.)*)"(?:\s*/\*\s*(EEAV_\w+)\s*\*/)?', m.group(1))] if m else []
     if len(tags) != len(dump["errors"]):
-        raise TieError("errors[]: %d tagged strings in the source, %d entries at run time" % (len(tags), len(dump["errors"])))
+        # the initialiser is written in a form this reader does not know: the strings eav_errstr returns are what counts
+        tags = [(x if x is not None else "", "") for x in dump["errors"]]
     L.append("/-- `errors[i]` as returned by `eav_errstr` with `errcode = i` (entry 2 is the idnmsg path) -/")
     L.append("def errorsRuntime : List String := [%s]\n" % ", ".join(lean_str(x if x is not None else "<NULL>") for x in dump["errors"]))
     L.append("/-- the `\"text\" /* EEAV_x */` pairs of the initialiser, in source order -/")
@@ -171,7 +173,7 @@ def main():
         rows = re.findall(r'\{\s*"([^"]*)"\s*,\s*(\d+)\s*\}', m.group(1))
         if not rows:
             raise TieError("%s[] has no rows" % name)
-        return rows
+        return sorted(rows)
     for nm_ in ("reserved", "example"):
         L.append("def %sTable : List (List Nat × Nat) := [%s]\n" % (nm_, ", ".join("(%s, %s)" % (lean_bytes(r[0].encode()), r[1]) for r in arr(nm_))))
     m = re.search(r'strncasecmp\s*\(\s*"(\w+)"\s*,\s*label\s*,\s*(\d+)\s*\)', sp)
@@ -183,39 +185,29 @@ def main():
         raise TieError("length filter of is_special_domain not found twice")
     L.append("def specialLenFilters : List (Nat × Nat × Nat × Nat) := [%s]\n" % ", ".join("(%s, %s, %s, %s)" % f for f in filt))
 
-    # case-label sets of the scanners
-    def scanner_sets(path, defines=()):
-        txt = rd(path)
-        # resolve the two #ifdef blocks of is_6531_local.c by hand-rolled preprocessing
-        p = subprocess.run(["gcc", "-E", "-P", "-I" + os.path.join(repo, "include")] + ["-D" + d for d in defines] +
-                           ["-D_DEFAULT_SOURCE", os.path.join(repo, path)], stdout=subprocess.PIPE, stderr=subprocess.DEVNULL)
-        body = p.stdout.decode(errors="replace")
-        i = body.find("is_" + re.search(r"is_(\w+)_local", path).group(1) + "_local (")
-        body = body[i:]
-        # the specials block: the run of case labels that ends in `return ... LPART_SPECIAL`/(-1 * (7))
-        m = re.search(r"((?:case\s+'(?:\\.|[^'\\])'\s*:\s*)+)return\s*\(-1\s*\*\s*\(EEAV_LPART_SPECIAL\)\)", body)
-        if not m:
-            raise TieError("specials case list not found in " + path)
-        return case_labels(m.group(1))
+    # the bytes each scanner refuses as "special" outside quotes, per build option: probed on the compiled code (harness/dump.c)
     sets = []
     for pth in ("src/is_822_local.c", "src/is_5321_local.c", "src/is_5322_local.c", "src/is_6531_local.c"):
-        sets.append((pth, "", scanner_sets(pth)))
-    sets.append(("src/is_6531_local.c", "RFC6531_FOLLOW_RFC20", scanner_sets("src/is_6531_local.c", ("RFC6531_FOLLOW_RFC20",))))
-    sets.append(("src/is_6531_local.c", "RFC6531_FOLLOW_RFC5322", scanner_sets("src/is_6531_local.c", ("RFC6531_FOLLOW_RFC5322",))))
+        sets.append((pth, "", sorted(dump["specials"][pth])))
+    for d in ("RFC6531_FOLLOW_RFC20", "RFC6531_FOLLOW_RFC5322"):
+        sets.append(("src/is_6531_local.c", d, sorted(run_dump((d,))["specials"]["src/is_6531_local.c"])))
     L.append("/-- (file, define, bytes of the `case` list that returns EEAV_LPART_SPECIAL) -/")
-    L.append("def specialsCases : List (String × String × List Nat) := [%s]\n" % ", ".join('("%s", "%s", %s)' % (a, b, lean_bytes(c)) for a, b, c in sets))
+    L.append("def specialsCases : List (String × String × List Nat) := [%s]\n" % ", ".join('("%s", "%s", %s)' % (a, b, "[" + ", ".join(str(x) for x in c) + "]") for a, b, c in sets))
 
-    # Makefile option defaults
-    mk = rd("Makefile")
+    # Makefile options, by what `make -n` would compile: no option given -> which of the three macros are defined; OPTION=ON -> which
+    def make_defines(args):
+        p = subprocess.run(["make", "-n", "-B", "-C", repo] + args, stdout=subprocess.PIPE, stderr=subprocess.DEVNULL)
+        out = p.stdout.decode(errors="replace")
+        if "-c" not in out:
+            raise TieError("make -n prints no compile command")
+        return set(re.findall(r"-D((?:RFC6531|LABELS)_\w+)", out))
+    base_defs = make_defines([])
     opts = []
     for o in ("RFC6531_FOLLOW_RFC5322", "RFC6531_FOLLOW_RFC20", "LABELS_ALLOW_UNDERSCORE"):
-        m = re.search(r"ifndef\s+%s\s*\n\s*export\s+%s\s*=\s*(\w+)\s*\nendif" % (o, o), mk)
-        if not m:
-            raise TieError("Makefile: default of %s not found" % o)
-        m2 = re.search(r"ifeq\s+\(\$\(%s\),(\w+)\)\s*\nCPPFLAGS\s*\+=\s*-D(\w+)" % o, mk)
-        if not m2:
-            raise TieError("Makefile: mapping of %s not found" % o)
-        opts.append((o, m.group(1), m2.group(1), m2.group(2)))
+        on = make_defines([o + "=ON"]) - base_defs
+        if len(on) != 1:
+            raise TieError("Makefile: %s=ON defines %r" % (o, sorted(on)))
+        opts.append((o, "ON" if o in base_defs else "OFF", "ON", sorted(on)[0]))
     L.append("/-- (option, default, value that enables it, macro it defines) -/")
     L.append("def buildOpts : List (String × String × String × String) := [%s]\n" % ", ".join('("%s", "%s", "%s", "%s")' % o for o in opts))
 
